@@ -1086,6 +1086,8 @@ class Engine:
             if not isinstance(obj, Rec):
                 raise Unsupported(f"attribute store on {type(obj).__name__}")
             inner = self._update(obj.fields[x], rest, val) if rest else val
+            if not rest and isinstance(inner, CList) and isinstance(obj.fields.get(x), SList):
+                inner = to_slist(inner, obj.fields[x].t)        # a list literal stored into a field that held a typed list keeps the type
             return obj.with_field(x, inner)
         # idx
         if isinstance(obj, SList):
